@@ -291,6 +291,52 @@ def p_run_wrapper_fail(h, d):
     return bpp.run_wrapper(inner(), md={})
 
 
+def p_mixed(h, d):
+    """checkpoints, a non-rewindable region, stage/unstage and (un)subscribe mid-run, monitor, work after close_run."""
+    m1, det, det2, sig = d["m1"], d["det"], d["det2"], d["sig"]
+
+    def cb(name, doc):
+        pass
+
+    def body():
+        yield Msg("open_run")
+        yield Msg("checkpoint")
+        yield Msg("set", m1, 1.0, group="a")
+        yield Msg("wait", None, group="a")
+        yield Msg("stage", det2)
+        yield Msg("null")
+        yield Msg("create", name="primary")
+        yield Msg("read", det2)
+        yield Msg("save")
+        tok = yield Msg("subscribe", None, cb, "all")
+        yield Msg("null")
+        yield Msg("rewindable", None, False)
+        yield Msg("set", m1, 2.0, group="b")
+        yield Msg("wait", None, group="b")
+        yield Msg("rewindable", None, True)
+        yield Msg("null")
+        yield Msg("monitor", sig, name="sig_mon")
+        yield Msg("trigger", det, group="t")
+        yield Msg("wait", None, group="t")
+        yield Msg("create", name="primary")
+        yield Msg("read", det2)
+        yield Msg("save")
+        yield Msg("unsubscribe", None, tok)
+        yield Msg("sleep", None, 0.1)
+        yield Msg("unmonitor", sig)
+        yield Msg("checkpoint")
+        yield Msg("null")
+        yield Msg("close_run")
+        yield Msg("null")
+        yield Msg("set", m1, 0.0, group="c")
+        yield Msg("wait", None, group="c")
+        yield Msg("unstage", det2)
+        yield Msg("null")
+        P(h, "body-complete")
+
+    return body()
+
+
 CORPUS = {
     "count": p_count,
     "scan": p_scan,
@@ -299,6 +345,7 @@ CORPUS = {
     "rel_scan": p_rel_scan,
     "custom": p_custom,
     "custom_mon": p_custom_mon,
+    "mixed": p_mixed,
     "neverclose": p_neverclose,
     "norun": p_norun,
     "nested": p_nested,
